@@ -134,6 +134,9 @@ func ListSplits(repo, diamondID string, stores context2.Stores, opts ...Option) 
 
 	workers.Wait()
 
+	// batches are sorted individually and come in key order: sort again to get the same order whatever the batch size
+	sort.Sort(splits)
+
 	return splits, err // we may have some batches resolved before the error occurred
 }
 
